@@ -87,7 +87,7 @@ def expected_facet(S, kind, cond, d, f, fun, comps, time, rows, w):
 def run(chk):
     E = LossEnv(chk.repo)
     chk.files = E.w.files
-    thorough = chk.tier == "thorough"
+    thorough = chk.full
     chk.rule("C04.R4", "boundary term == sum over facets of w * Mean[facet rows](sum_c (D[u]_c - f)^2), D = identity or the "
                        "outward normal derivative; facet order xmin, xmax, ymin, ymax; same value for every return kind of f",
              floor=16)
